@@ -57,7 +57,7 @@ PROBES = [  # first of all, in a context whose creation converts no number: a se
           'lex ' + hx(b'a "b c" \'d\' /* e */ # f\n{ }'), 'parse_buf 2 ' + hx(b'include("good.conf")\n'), 'dump 2',
           'parse_buf 2 ' + hx(b's = "' + b'z' * 40 + b'"\n'), 'dump 2', 'setmulti 2 69 35', 'dump 2',
           # the contexts with a history: what a parse reports (code, file, line, message) does not depend on it
-          'parse_buf 0 ' + hx(b'i = 3\n\nbogus = 1\n'), 'parse_buf 1 ' + hx(b'\ns = "open\n'), 'parse_buf 0 ' + hx(b'i = 4\n'),
+          'parse_buf 0 ' + hx(b'i = 3\n\nbogus = 1\n'), 'parse_buf 1 ' + hx(b'\ns = "open\n'), 'parse_buf 1 ' + hx(b"\n\ns = 'open\n"), 'parse_buf 0 ' + hx(b'\n/* open\n'), 'parse_buf 0 ' + hx(b'i = 4\n'),
           'parse_buf 0 ' + hx(b'include("bad.conf")\n'),
           'parse_buf 2 ' + hx(b'# c\nold = 6\ngone += 4\n'), 'dump 2',
           'init 3 0 0', 'parse_buf 3 ' + hx(b'mm { a = 2 }\nmm { }\n"mm=1|a" = 7\n"mm=0x0|a" = 8\n'), 'dump 3']
